@@ -42,20 +42,3 @@ Definition C07_seamless_num_final : Prop :=
        map eblk (fst res) = from_num start merged \/
        from_num start (map eblk (fst res)) = seg_num start (final_lib c w) canon).
 
-(* every hypothesis of C07_seamless_num_final except files_final, and a block is delivered after its child *)
-Definition C07_final_only_refuted : Prop :=
-  exists (U : list block) (c : jcfg) (w : world) (ps : list (N * N)) (merged_end : N) (canon forked : list block),
-    wf_b U = true /\ lib_ok_b LNone U = true /\
-    hub_of_universe U c w /\
-    chain_ok canon /\ incl canon U /\
-    eventual_tip c w canon /\
-    j_mode c = 0 /\ j_filter c = 1 /\ j_stop c = 0 /\
-    0 < j_bundle c /\ Forall (fun b => bnum b < file_bound) (filter (fun b => bnum b <? merged_end) canon) /\
-    (exists b, In b canon /\ bnum b = run_start c w) /\
-    let res := stream_run c w ps merged_end (filter (fun b => bnum b <? merged_end) canon) forked in
-    snd res = JNil /\ final_fold None (fst res) = false /\
-    (* the same input with the default filter is fine *)
-    exists c', cons_fold_aside cons0
-                 (map as_new (fst (stream_run (mkJ (j_first c) (j_kept c) (j_bundle c) (j_mode c) (j_start c) (j_cursor c)
-                                                    (j_stop c) 0 0) w ps merged_end
-                                              (filter (fun b => bnum b <? merged_end) canon) forked))) = Some c'.
